@@ -562,6 +562,91 @@ fn scan_convert(src: &str) {
     println!("convert {}", facts.iter().map(|(k, v)| format!("{}={}", k, *v as u8)).collect::<Vec<_>>().join(" "));
 }
 
+/// convert_vec_in_place (the infallible wrapper): the first thing that touches the input vector is its hand-over, as the
+/// first argument, to try_convert_vec_in_place, and nothing returns before that
+fn scan_wrapper(src: &str) {
+    let mut delegates = false;
+    let mut notes: Vec<String> = Vec::new();
+    'scan: {
+        let file = match syn::parse_file(src) {
+            Ok(f) => f,
+            Err(_) => break 'scan,
+        };
+        let f = match file.items.iter().find_map(|it| match it {
+            Item::Fn(f) if f.sig.ident == "convert_vec_in_place" => Some(f),
+            _ => None,
+        }) {
+            Some(f) => f,
+            None => {
+                notes.push("fn convert_vec_in_place not found".to_owned());
+                break 'scan;
+            }
+        };
+        let param = match f.sig.inputs.first() {
+            Some(syn::FnArg::Typed(t)) => pat_str(&t.pat).trim_start_matches("mut").to_owned(),
+            _ => {
+                notes.push("convert_vec_in_place: unexpected signature".to_owned());
+                break 'scan;
+            }
+        };
+        // identifiers and single punctuation characters of a statement, in source order
+        let lex = |txt: &str| -> Vec<String> {
+            let mut out = Vec::new();
+            let mut cur = String::new();
+            for ch in txt.chars() {
+                if ch.is_alphanumeric() || ch == '_' {
+                    cur.push(ch);
+                } else {
+                    if !cur.is_empty() {
+                        out.push(std::mem::take(&mut cur));
+                    }
+                    if !ch.is_whitespace() {
+                        out.push(ch.to_string());
+                    }
+                }
+            }
+            if !cur.is_empty() {
+                out.push(cur);
+            }
+            out
+        };
+        for st in &f.block.stmts {
+            let toks = lex(&st.to_token_stream().to_string());
+            match toks.iter().position(|t| *t == param) {
+                None => {
+                    if toks.iter().any(|t| t == "return") {
+                        notes.push("convert_vec_in_place returns before handing its input over".to_owned());
+                        break 'scan;
+                    }
+                }
+                Some(p) => {
+                    // the tokens in front of the first mention end with `try_convert_vec_in_place (` (or with a turbofish)
+                    let callee = "try_convert_vec_in_place";
+                    let ok = match toks[..p].iter().rposition(|t| t == callee) {
+                        Some(c) => {
+                            let between = &toks[c + 1..p];
+                            let plain = between.len() == 1 && between[0] == "(";
+                            let fish = between.len() >= 5 && between[0] == ":" && between[1] == ":" && between[2] == "<" && between[between.len() - 2] == ">" && between[between.len() - 1] == "(" && !between[..between.len() - 1].iter().any(|t| t == "(");
+                            (plain || fish) && toks.get(p + 1).map_or(false, |t| t == ",") && !toks[..c].iter().any(|t| t == "return" || t == "if" || t == "match" || t == "while" || t == "loop" || t == "for")
+                        }
+                        None => false,
+                    };
+                    if !ok {
+                        notes.push(format!("convert_vec_in_place: the first use of `{}` is not its hand-over to try_convert_vec_in_place: {}", param, squeeze(&st.to_token_stream().to_string()).chars().take(120).collect::<String>()));
+                    }
+                    delegates = ok;
+                    break 'scan;
+                }
+            }
+        }
+        notes.push("convert_vec_in_place never uses its input".to_owned());
+    }
+    for n in notes {
+        println!("note {}", n.replace('\n', " "));
+    }
+    println!("wrapper delegates={}", delegates as u8);
+}
+
 fn main() {
     let args: Vec<String> = std::env::args().collect();
     let root = args.get(1).cloned().unwrap_or_else(|| "/repo".to_owned());
@@ -569,4 +654,5 @@ fn main() {
     let conv = std::fs::read_to_string(format!("{}/truc_runtime/src/convert.rs", root)).unwrap_or_default();
     scan_data(&data);
     scan_convert(&conv);
+    scan_wrapper(&conv);
 }
